@@ -222,7 +222,9 @@ func driveMul(c *ctx) {
 		f    func(v *secp256k1.Point, s *secp256k1.Scalar, p *secp256k1.Point) *secp256k1.Point
 	}
 	kinds := []mk{
-		{"ct", func(v *secp256k1.Point, s *secp256k1.Scalar, p *secp256k1.Point) *secp256k1.Point { return v.ScalarMult(s, p) }},
+		{"ct", func(v *secp256k1.Point, s *secp256k1.Scalar, p *secp256k1.Point) *secp256k1.Point {
+			return v.ScalarMult(s, p)
+		}},
 		{"vartime", func(v *secp256k1.Point, s *secp256k1.Scalar, p *secp256k1.Point) *secp256k1.Point {
 			return v.VerifScalarMultVartimeGLV(s, p)
 		}},
